@@ -526,20 +526,13 @@ func toInt(v any) (int, bool, bool) {
 		i, ok := decimalToInt(v)
 		return i, true, ok
 	case json.Number:
-		i, err := v.Int64()
+		d, err := decimal128.Parse(v.String())
 		if err != nil {
-			if _, err = v.Float64(); err != nil {
-				return 0, false, false
-			}
-
-			return 0, true, false
+			return 0, false, false
 		}
 
-		if i > math.MaxInt || i < math.MinInt {
-			return 0, true, false
-		}
-
-		return int(i), true, true
+		i, ok := decimalToInt(d)
+		return i, true, ok
 	case float32:
 		if v > math.MaxInt || v < math.MinInt {
 			return 0, true, false
